@@ -247,7 +247,10 @@ def table_cases(ctx, n):
             pass
         cases.append((glist([gbytes(l) for l in lines]), got))
         metas.append(body)
-    bad = common.coq_cases("c02t", ["Model.Xref", "Model.XrefRun"], "run_table", cases, shard=300)
+    # every differing case is rendered: the model's "declined" answer [2] must be told apart from a disagreement
+    # (with the default of 8 rendered cases per shard the ninth declined case of a shard was reported as a disagreement
+    # in the thorough tier -- a false alarm of the harness)
+    bad = common.coq_cases("c02t", ["Model.Xref", "Model.XrefRun"], "run_table", cases, shard=300, show_max=300)
     for i, shown in sorted(bad.items()):
         if "[2]" == shown.strip():
             continue                        # the model declines (non-digit field): not a disagreement
